@@ -240,17 +240,21 @@ class C05(Oracle):
     prop = "C05"
 
     def start(self, run, rp):
+        from .timed import TariffModel
         self.vfare = defaultdict(float)
         self.vpaid = defaultdict(float)
         self.srecv = defaultdict(float)
         self.sessions = 0
         self.priced = 0
+        self.model = TariffModel(run.spec, rp.s)   # the tariff in force according to the price table itself
         return ()
 
     def step(self, ctx):
         out = []
         k, prev, nxt = ctx.k, ctx.prev, ctx.nxt
         tariffs = ctx.applied[-1][0].stations if ctx.applied else nxt.stations
+        self.model.external(ctx.ext_ops)
+        self.model.advance(ctx.T)
         charges = ctx.reports_of(RT.VEHICLE_CHARGE_EVENT)
         per_v = defaultdict(list)
         per_s_pay = defaultdict(float)
@@ -265,6 +269,9 @@ class C05(Oracle):
             if price is None:
                 out.append(V("C05", "charge_on_unknown_plug", k, f"vehicle {vid} charged on {sid}/{cid} which does not exist"))
                 continue
+            if not self.model.acceptable(sid, cid, price):
+                out.append(V("C05", "tariff_not_the_one_in_force", k,
+                             f"vehicle {vid} charged on {sid}/{cid} at {price!r} per unit but the price table in force says {self.model.price.get((sid, cid))!r}"))
             pay = energy * price
             if abs(float(ch["price"]) - pay) > 1e-9 * max(1.0, abs(pay)):
                 out.append(V("C05", "payment_vs_tariff", k, f"vehicle {vid} paid {ch['price']!r} for {energy!r} at tariff {price!r} on {sid}/{cid}"))
@@ -330,22 +337,29 @@ class C05(Oracle):
 
 # ---------------------------------------------------------------------------------------------------------
 class C18(Oracle):
+    """FIFO reference model per (station, plug type), fed by observation only: a vehicle's place in the queue is the step at
+    the end of which it was first seen queueing there without interruption (ties by vehicle id) -- HIVE's own enqueue_time
+    field is not trusted, so a change that silently re-stamps a waiting vehicle cannot hide behind it."""
     prop = "C18"
 
     def start(self, run, rp):
         self.served_from_queue = 0
         self.contended = 0
+        self.joined = {}   # vehicle id -> (station, plug, step at the end of which it was first seen queueing)
+        for vid, v in rp.s.vehicles.items():
+            if act(v) == "ChargeQueueing":
+                self.joined[vid] = (v.vehicle_state.station_id, v.vehicle_state.charger_id, -1)
         return ()
 
     def step(self, ctx):
         out = []
-        prev, nxt, env = ctx.prev, ctx.nxt, ctx.env
-        # the queue as it stood when the vehicle updates began: vehicles queueing at the start of the step that did not
-        # receive an instruction in it
-        q0 = {vid: v.vehicle_state for vid, v in prev.vehicles.items() if act(v) == "ChargeQueueing"}
-        keys = sorted({(s.station_id, s.charger_id) for s in q0.values()})
-        for key in keys:
-            members = [vid for vid, s in q0.items() if (s.station_id, s.charger_id) == key]
+        prev, nxt, k = ctx.prev, ctx.nxt, ctx.k
+        # the queues as they stood at the end of the previous step
+        members_of = {}
+        for vid, (sid, cid, j) in self.joined.items():
+            members_of.setdefault((sid, cid), []).append(vid)
+        for key in sorted(members_of):
+            members = members_of[key]
             st = prev.stations.get(key[0])
             if st is None or key[1] not in st.state:
                 continue
@@ -359,7 +373,7 @@ class C18(Oracle):
                 if a1 == "ChargingStation" and v1.vehicle_state.station_id == key[0] and v1.vehicle_state.charger_id == key[1]:
                     if vid not in ctx.instructed:
                         served.append(vid)
-                elif a1 == "ChargeQueueing" and v1.vehicle_state.instance_id == q0[vid].instance_id:
+                elif a1 == "ChargeQueueing" and (v1.vehicle_state.station_id, v1.vehicle_state.charger_id) == key:
                     waiting.append(vid)
             self.served_from_queue += len(served)
             if served and waiting:
@@ -367,19 +381,26 @@ class C18(Oracle):
                 ctx.run.probes["queue_partially_served"] += 1
             for s_ in served:
                 for w_ in waiting:
-                    if (int(q0[w_].enqueue_time), w_) < (int(q0[s_].enqueue_time), s_):
+                    if (self.joined[w_][2], w_) < (self.joined[s_][2], s_):
                         usable = charger.energy_type in nxt.vehicles[w_].energy
                         if usable:
-                            out.append(V("C18", "fifo", ctx.k,
-                                         f"station {key[0]} plug {key[1]}: {s_} (queued {int(q0[s_].enqueue_time)}) started charging while {w_} (queued {int(q0[w_].enqueue_time)}) still waits"))
+                            out.append(V("C18", "fifo", k,
+                                         f"station {key[0]} plug {key[1]}: {s_} (in the queue since step {self.joined[s_][2]}) started charging while {w_} (in the queue since step {self.joined[w_][2]}) still waits"
+                                         + (" [it received an instruction this step and is still queueing]" if w_ in ctx.instructed else "")))
                         else:
                             ctx.run.probes["unusable_plug_in_queue"] += 1
-            if len(members) >= 2 and len({int(q0[m].enqueue_time) for m in members}) < len(members):
+            if len(members) >= 2 and len({self.joined[m][2] for m in members}) < len(members):
                 ctx.run.probes["tied_enqueue_time"] += 1
-            ids_sorted = sorted(members)
-            by_time = sorted(members, key=lambda m: (int(q0[m].enqueue_time), m))
-            if ids_sorted != by_time:
+            if sorted(members) != sorted(members, key=lambda m: (self.joined[m][2], m)):
                 ctx.run.probes["arrival_order_differs_from_id_order"] += 1
+        # advance the observed queues to the end of this step
+        new = {}
+        for vid, v1 in nxt.vehicles.items():
+            if act(v1) == "ChargeQueueing":
+                key = (v1.vehicle_state.station_id, v1.vehicle_state.charger_id)
+                old = self.joined.get(vid)
+                new[vid] = old if (old is not None and old[:2] == key) else (key[0], key[1], k)
+        self.joined = new
         return out
 
     def nontrivial(self, run):
